@@ -19,10 +19,12 @@ import (
 	"flag"
 	"fmt"
 	"io"
+	"math/rand"
 	"net/http"
 	"net/http/httptest"
 	"net/url"
 	"os"
+	"strconv"
 	"strings"
 	"sync"
 	"time"
@@ -308,6 +310,47 @@ func promMulti(name, q string, stepS string, widen int64, offsets []int64) Endpo
 
 const traceID = "0123456789abcdef0123456789abcdef"
 
+// GenTempo: the parameters of a generated /api/search request (Tempo v1, by tags): tags as (key, condition, value),
+// limit / minDuration / maxDuration as sent ("" = parameter absent)
+type GenTempo struct {
+	Tags   [][3]string `json:"tags"`
+	Limit  string      `json:"limit"`
+	MinDur string      `json:"min_dur"`
+	MaxDur string      `json:"max_dur"`
+}
+
+var curGen *GenTempo
+
+// a literal of the tags grammar ([^ !=~"]+) or a quoted string
+func tagTok(v string) string {
+	if v != "" && !strings.ContainsAny(v, " !=~\"") {
+		return v
+	}
+	return strconv.Quote(v)
+}
+
+func (g *GenTempo) tagsParam() string {
+	parts := make([]string, len(g.Tags))
+	for i, t := range g.Tags {
+		parts[i] = tagTok(t[0]) + t[1] + tagTok(t[2])
+	}
+	return strings.Join(parts, " ")
+}
+
+func genTempo(r *rand.Rand) *GenTempo {
+	keys := []string{"a", "http.method", "service.name", "k 1", "weird\"key", "x=y", "c"}
+	vals := []string{"b", "d.*", "it's", "a b", "200", "^x$", "back\\slash", "\u00fc", "1=1", "d"}
+	ops := []string{"=", "!=", "=~", "!~"}
+	g := &GenTempo{}
+	for i, n := 0, r.Intn(4); i < n; i++ {
+		g.Tags = append(g.Tags, [3]string{keys[r.Intn(len(keys))], ops[r.Intn(len(ops))], vals[r.Intn(len(vals))]})
+	}
+	g.Limit = []string{"", "0", "1", "20", "100"}[r.Intn(5)]
+	g.MinDur = []string{"", "", "1ms", "1500us", "250ms"}[r.Intn(5)]
+	g.MaxDur = []string{"", "", "2s", "250ms"}[r.Intn(4)]
+	return g
+}
+
 func endpoints() []Endpoint {
 	profType := "process_cpu:cpu:nanoseconds:cpu:nanoseconds"
 	eps := []Endpoint{
@@ -397,6 +440,18 @@ func endpoints() []Endpoint {
 		{Name: "tempo_search_tags", Api: "traces", Build: func(w Window) (*http.Request, int64, int64) {
 			return get("/api/search", "tags", `a=b c=d`, "start", sec(w.FromNs), "end", sec(w.ToNs), "minDuration", "1ms", "limit", "20"), 0, 0
 		}},
+		{Name: "tempo_search_gen", Api: "traces", Build: func(w Window) (*http.Request, int64, int64) {
+			kv := []string{"start", sec(w.FromNs), "end", sec(w.ToNs)}
+			if t := curGen.tagsParam(); t != "" {
+				kv = append(kv, "tags", t)
+			}
+			for _, p := range [][2]string{{"limit", curGen.Limit}, {"minDuration", curGen.MinDur}, {"maxDuration", curGen.MaxDur}} {
+				if p[1] != "" {
+					kv = append(kv, p[0], p[1])
+				}
+			}
+			return get("/api/search", kv...), 0, 0
+		}},
 		{Name: "tempo_search_plain", Api: "traces", Build: func(w Window) (*http.Request, int64, int64) {
 			return get("/api/search", "start", sec(w.FromNs), "end", sec(w.ToNs), "limit", "20"), 0, 0
 		}},
@@ -471,6 +526,7 @@ type ReqCase struct {
 	Cluster bool   `json:"cluster"`
 	Schema  string `json:"schema"` // new | old
 	Window
+	Gen *GenTempo `json:"gen,omitempty"` // tempo_search_gen: the generated parameters
 }
 
 type Line struct {
@@ -501,6 +557,7 @@ type Line struct {
 	Body     string `json:"body,omitempty"` // start of the response body of a failed request
 	WinFrom  int64  `json:"win_from_ns"`    // the window of the generated case (before the API's granularity)
 	WinTo    int64  `json:"win_to_ns"`
+	Gen      *GenTempo `json:"gen,omitempty"`
 }
 
 var routers = map[string]*mux.Router{}
@@ -563,6 +620,7 @@ func main() {
 	schemas := flag.String("schemas", "new", "new | old | both")
 	only := flag.String("only", "", "comma-separated endpoint names (default: all)")
 	tails := flag.Int("tails", 2, "how many live-tail requests to run (each waits for the one-second ticker)")
+	tempoGen := flag.Int("tempo-gen", 0, "additional generated /api/search requests (random tags, conditions, limit, durations)")
 	fl := hx.ParseFlags()
 
 	config.Cloki = clconfig.New(clconfig.CLOKI_READER, nil, "", "")
@@ -588,6 +646,7 @@ func main() {
 		byName[eps[i].Name] = &eps[i]
 	}
 	var cases []ReqCase
+	var r *rand.Rand // the one generator of the run
 	if fl.Cases != "" {
 		hx.ReadLines(fl.Cases, func(line []byte) {
 			var c ReqCase
@@ -630,7 +689,7 @@ func main() {
 				onlySet[n] = true
 			}
 		}
-		r := hx.Rand(fl.Seed)
+		r = hx.Rand(fl.Seed)
 		wins := fixedWindows()
 		for i := 0; i < *nrand; i++ {
 			// random instants over 2021..2027, lengths from 1 ms to 3 days, sometimes aligned to a day boundary
@@ -658,6 +717,9 @@ func main() {
 							if len(onlySet) > 0 && !onlySet[ep.Name] {
 								continue
 							}
+							if ep.Name == "tempo_search_gen" {
+								continue // only with generated parameters, below
+							}
 							if ep.WS {
 								if ntail >= *tails || wi != 0 {
 									continue
@@ -675,6 +737,14 @@ func main() {
 		}
 	}
 
+	if fl.Cases == "" {
+		gr := r
+		wins := fixedWindows()
+		for i := 0; i < *tempoGen; i++ {
+			cases = append(cases, ReqCase{Ep: "tempo_search_gen", Zone: 0, Cluster: gr.Intn(2) == 0, Schema: "new",
+				Window: wins[gr.Intn(len(wins))], Gen: genTempo(gr)})
+		}
+	}
 	out := hx.OpenOut(fl.Out)
 	coqDone := map[string]bool{}
 	id := 0
@@ -684,6 +754,10 @@ func main() {
 		schemaNew = c.Schema != "old"
 		router := routerFor(c.Cluster, c.Schema)
 		w := c.Window
+		curGen = c.Gen
+		if ep.Name == "tempo_search_gen" && curGen == nil {
+			curGen = &GenTempo{}
+		}
 		req, wlo, whi := ep.Build(w)
 		from, to := w.FromNs/ep.Gran*ep.Gran, w.ToNs/ep.Gran*ep.Gran
 		if ep.Name == "loki_instant_log" || ep.Name == "loki_instant_rate" {
@@ -710,7 +784,7 @@ func main() {
 			wlo, whi = t1.Sub(t0).Nanoseconds()+2*second, t1.Sub(t0).Nanoseconds()+2*second
 		}
 		base := Line{Req: ri, Ep: ep.Name, Api: ep.Api, Zone: c.Zone, Cluster: c.Cluster, Schema: c.Schema, Class: w.Class,
-			FromNs: from, ToNs: to, WidenLo: wlo, WidenHi: whi, NoWindow: ep.NoWindow, WinFrom: w.FromNs, WinTo: w.ToNs}
+			FromNs: from, ToNs: to, WidenLo: wlo, WidenHi: whi, NoWindow: ep.NoWindow, WinFrom: w.FromNs, WinTo: w.ToNs, Gen: c.Gen}
 		l := base
 		l.Kind, l.ID, l.Status, l.NStmts, l.URL, l.Panic, l.Body = "req", id, status, len(stmts), req.URL.RequestURI(), pnc, lastBody
 		id++
